@@ -28,6 +28,7 @@ import RosuModel.Props.C02FinalScroll
 import RosuModel.Props.C02FinalCurves
 import RosuModel.Props.C04DecodedPaths
 import RosuModel.Props.C04DecodedTiming
+import RosuModel.Props.C04DecodedTimingToy
 set_option linter.unusedSectionVars false
 namespace Rosu.C02
 open Rosu Encode EncodeLines C11 RtTiming Scalar FileRt SliderRt
@@ -233,5 +234,75 @@ theorem roundtrip_decoded_capstone (X : ExactLaws F P RF RP) (bs : List UInt8) (
     rcases hmode with hmo | hmo <;> rw [hmo] at this <;> exact this
 
 end
+
+/-! ### the laws are satisfiable together -/
+
+/-- **every law of `ExactLaws` holds of the toy codec** (`ZC`: integers with `eps = 1`, truncating division). -/
+theorem exactLaws_zc : ExactLaws ZC ZC ZC.Rep ZC.Rep where
+  map := ZC.mapLaws
+  eps := zc_epsLaws
+  group := zc_groupLaws
+  scroll := scrollClampLaws_zc
+  near := nearLaw_zc
+  const := DecodedInv.ZC.constFacts
+  limitRep := DecodedInv.ZC.limitRep
+  obj := C04.ZC.objLaws
+  dur := C04.ZC.durLaws
+  ctrl := C04.ZC.ctrlLaws
+  path := C04.ZC.pathLaws
+  timing := C04.ZC.timingLaws
+
+/-! ### the full statement -/
+
+/-- **the property with NO `DecodedDomain` hypothesis** — NOT a theorem; FALSE of the model (and of the code) as soon as any
+one field of `DecodedDomain` is dropped. Per field, the kernel-checked refutation that already exists:
+
+* `chronological` — `unordered_not_finalized` (Props/C02FinalUnordered.lean): a spinner at 1000 listed before circles at 100
+  and 50; after the sort a plain circle follows the spinner without `new_combo`, the re-decode forces it. The property
+  itself quantifies over chronological inputs.
+* `timingLines`, order — `unordered_scroll_counterexample` / `scroll_timeline_unordered_false` (Props/C02FinalScroll.lean): mania
+  lines at 10 then 5; at time 10 the slider velocity in effect is 2 and the scroll speed 1, and by `scroll_hypothesis_exact`
+  that is exactly where a slider's velocity changes.
+* `timingLines`, one mode (F15) — `mode_change_counterexample`, `mode_change_not_good` (Props/C02FinalScrollToy.lean): a timing
+  line applied in osu! mode in a file that ends up mania.
+* `noDoubleSlash` (F16) — `C04.f16_decoded_witness` (`AudioFilename: a\\b.mp3` decodes to `a//b.mp3`), and the `example`s
+  next to it: the written line is accepted but read back as `a`; IEEE: `C04.f16_decoded_witness_float`.
+* `objects`, F17 — `C04.f17_needed` (three decoded lines outside `F17Free`), `C04.f17_file_needed`, `C04.f17_needed_ieee`.
+* `objects`, F21 — `C04.objF21_not_repObject` (`256,192,1000,1,0,0:0:0:0:a ,x` gives the file name `a `), `C04.objF21_not_residual`.
+* `objects`, F20 — recorded witness `0,0,1000,2,0,L|131072:131072|-131072:-131072|131072:131072,1` (replayed on the code by the
+  `lines` oracle; `RepSlider.distRep` is the clause it violates; no kernel evaluation: the curve does not reduce).
+* `objects`, `noBar` — an artefact of `RepSampleFile` being shared with slider lines: `C04.objBar_accepted_anyway` shows the
+  line is accepted; the round trip of such a name is not proved (not refuted either).
+* `collectedTimes` — `C04.decoded_repTimingMap_statement_false`, `C04.over_not_collectedTimes` (a slider at 2147483647 collects
+  a sample point beyond the limit; its line is rejected on re-read).
+* `pathStable` — F15 on the object side (same `Mode:`-after-lines mechanism as `mode_change_counterexample`; the curve
+  depends on the path's mode, `same_fields_same_curve` needs it equal).
+* `timeline` — the inverse law `100 / −(−100 / v) = v` on the map's velocities; for IEEE doubles the ≤ 4 ulp drift the `rt`
+  oracle measures. The companion LAWS are refuted for `Float` in the kernel: `IeeeFalse.epsLaws_float_false`,
+  `IeeeFalse.groupLaws_float_false`; `ExactLaws.dur` by `C04.duration_drifts_float` (F25), `C04.end_time_over_limit_float`
+  (F26), `C04.durLawsZ_float_false`.
+* not a field, because the preserved view does not look at it: F18 (node sample file names; `node_samples_rt`), F22 (needs
+  non-exact grouping arithmetic, i.e. is excluded by `ExactLaws.group`).
+
+`roundtrip_decoded_capstone` is this statement with `DecodedDomain RF bs st m` added. -/
+def roundtrip_statement_full : Prop :=
+  ∀ (F P : Type) [Scalar F] [Scalar P] [Cvt P F] [Trig F] [Trig P] (RF : F → Prop) (RP : P → Prop),
+    ExactLaws F P RF RP →
+    ∀ (bs : List UInt8) (st : BeatmapState F P) (m : Beatmap F P),
+      decodeBytes beatmapDecoder bs = .ok st → st.finish = .ok m →
+      ∀ t : Str, encode m = .ok t →
+        ∃ st2 : BeatmapState F P, decodeBytes beatmapDecoder (utf8Encode t) = .ok st2 ∧
+          ∀ m2 : Beatmap F P, st2.finish = .ok m2 → PreservedEq m m2
+
+/-- the capstone IS the full statement restricted to the domain. -/
+theorem roundtrip_statement_full_on_domain :
+    ∀ (F P : Type) [Scalar F] [Scalar P] [Cvt P F] [Trig F] [Trig P] (RF : F → Prop) (RP : P → Prop),
+      ExactLaws F P RF RP →
+      ∀ (bs : List UInt8) (st : BeatmapState F P) (m : Beatmap F P),
+        decodeBytes beatmapDecoder bs = .ok st → st.finish = .ok m → DecodedDomain RF bs st m →
+        ∀ t : Str, encode m = .ok t →
+          ∃ st2 : BeatmapState F P, decodeBytes beatmapDecoder (utf8Encode t) = .ok st2 ∧
+            ∀ m2 : Beatmap F P, st2.finish = .ok m2 → PreservedEq m m2 :=
+  fun _ _ _ _ _ _ _ _ _ X bs st m h1 h2 D t he => roundtrip_decoded_capstone X bs st m h1 h2 D t he
 
 end Rosu.C02
